@@ -267,6 +267,24 @@ Check C04_subword_tables_exact :
             (n_sub_star nd) (match assocN pi os with Some o => o | None => [] end) = Ok t).
 Print Assumptions C04_subword_tables_exact.
 
+(** bash (df274e8): the accepting states embedded for a within-word automaton are those of that automaton *)
+Theorem C04_subword_accepting_exact :
+  forall (sh : shell) (c : cdfa) (om : list (string * string)) (os : list (N * list (string * string))) (nd : needs) (a : alltables),
+    all_tables sh c om os = Ok (nd, a) ->
+    forall (id : N) (accs : list N), In (id, accs) (a_subaccepting a) <->
+    (exists (rt : list (N * inp * N)) (pi : N) (sd : dfa),
+       rtrans (c_main c) = Ok rt /\ In (pi, id) (get_subwords rt (array_start sh)) /\ nthN (c_subs c) pi = Some sd
+       /\ accs = map (fun s => s + array_start sh) (d_accepting sd)).
+Proof. exact subaccepting_exact. Qed.
+Check C04_subword_accepting_exact :
+  forall (sh : shell) (c : cdfa) (om : list (string * string)) (os : list (N * list (string * string))) (nd : needs) (a : alltables),
+    all_tables sh c om os = Ok (nd, a) ->
+    forall (id : N) (accs : list N), In (id, accs) (a_subaccepting a) <->
+    (exists (rt : list (N * inp * N)) (pi : N) (sd : dfa),
+       rtrans (c_main c) = Ok rt /\ In (pi, id) (get_subwords rt (array_start sh)) /\ nthN (c_subs c) pi = Some sd
+       /\ accs = map (fun s => s + array_start sh) (d_accepting sd)).
+Print Assumptions C04_subword_accepting_exact.
+
 (** script ids of within-word automata: consecutive from the array base, one per automaton *)
 Theorem C04_subword_ids :
   forall (rt : list (N * inp * N)) (first : N),
